@@ -51,6 +51,8 @@ func (c *CreateSpec) Request() map[string]interface{} {
 type SignedSpec struct {
 	Op         string // update | recover | deactivate
 	Code       uint64
+	DeltaCode  uint64 // multihash algorithm of the signed delta hash (default Code)
+	RevealCode uint64 // multihash algorithm of the reveal value (default Code)
 	Suffix     string
 	RevealKey  *Key // key whose reveal value goes to the top level
 	SignedKey  *Key // key placed inside the signed data (normally = RevealKey)
@@ -65,7 +67,7 @@ type SignedSpec struct {
 	SignedSuffix       string // deactivate: suffix inside signed data (default Suffix)
 	Kid                string
 	// post-processing knobs
-	TamperSignature bool // flip one bit in the signature
+	TamperSignature bool                                 // flip one bit in the signature
 	AlterPayload    func(payload map[string]interface{}) // applied AFTER signing, payload re-encoded
 	OmitDelta       bool
 	NullDelta       bool
@@ -112,6 +114,9 @@ func (s *SignedSpec) deltaHash() string {
 	if s.DeltaHashOverride != "" {
 		return s.DeltaHashOverride
 	}
+	if s.DeltaCode != 0 {
+		return HashModel(s.DeltaCode, s.Delta)
+	}
 	return HashModel(s.Code, s.Delta)
 }
 
@@ -140,7 +145,7 @@ func (s *SignedSpec) Request() map[string]interface{} {
 	req := map[string]interface{}{
 		"type":        s.Op,
 		"didSuffix":   s.Suffix,
-		"revealValue": s.RevealKey.Reveal(s.Code),
+		"revealValue": s.RevealKey.Reveal(s.revealCode()),
 		"signedData":  jws,
 	}
 	if s.Op != "deactivate" && !s.OmitDelta {
@@ -173,3 +178,10 @@ func splitJWS(j string) (string, string, string) {
 
 // SplitJWS exposes the three compact parts.
 func SplitJWS(j string) (string, string, string) { return splitJWS(j) }
+
+func (s *SignedSpec) revealCode() uint64 {
+	if s.RevealCode != 0 {
+		return s.RevealCode
+	}
+	return s.Code
+}
